@@ -35,6 +35,11 @@ type ttlStorage struct {
 	data  map[string]ttlEntry
 	yield bool
 	lazy  bool // a storage that does not expire entries by itself (TTL is advisory)
+	// keep: the storage keeps the very slice it is given and hands out its internal slice (no defensive copies),
+	// as fiber's own in-memory storages do; a cache that passes it a slice aliasing a request/response buffer is corrupted.
+	keep bool
+	// dropEmpty: Set with an empty key or value is a no-op ("Ain't Nobody Got Time For That" in fiber's memory storages)
+	dropEmpty bool
 }
 
 func (s *ttlStorage) y(op string) {
@@ -48,13 +53,23 @@ func (s *ttlStorage) Get(key string) ([]byte, error) {
 	if !ok || (!s.lazy && e.exp != 0 && e.exp <= utils.Timestamp()) {
 		return nil, nil
 	}
+	if s.keep {
+		return e.val, nil
+	}
 	return append([]byte(nil), e.val...), nil
 }
 func (s *ttlStorage) Set(key string, val []byte, ttl time.Duration) error {
 	s.y("storage.set")
+	if s.dropEmpty && (len(key) == 0 || len(val) == 0) {
+		return nil
+	}
 	var exp uint32
 	if ttl > 0 {
 		exp = uint32(ttl.Seconds()) + utils.Timestamp()
+	}
+	if s.keep {
+		s.data[key] = ttlEntry{val, exp}
+		return nil
 	}
 	s.data[key] = ttlEntry{append([]byte(nil), val...), exp}
 	return nil
@@ -91,9 +106,13 @@ type originResp struct {
 	CT     string
 	Enc    string
 	XV     string // X-Version header (stored only with StoreResponseHeaders)
+	M      string // method of the request the origin answered
 }
 
-var bodyPad = map[string]string{"/a": "", "/b": "b", "/c": "cc", "/e": ""}
+// body sizes: /a /d /f /e /z 2 bytes, /b 3, /c 4, /m 6 (= MaxBytes of the standard configurations), /o 7 (> MaxBytes);
+// every second response of /z has an EMPTY body; /s answers 200 once and 500 from then on; /g answers 2 bytes once and 7 bytes
+// (> MaxBytes) from then on — keys whose refresh is not storable although an entry exists.
+var bodyPad = map[string]string{"/a": "", "/b": "b", "/c": "cc", "/e": "", "/d": "", "/f": "", "/z": "", "/m": "mmmm", "/o": "ooooo", "/s": "", "/g": ""}
 
 func (o *origin) handler(c fiber.Ctx) error {
 	p := utils.CopyString(c.Path())
@@ -101,8 +120,14 @@ func (o *origin) handler(c fiber.Ctx) error {
 	o.version[p]++
 	o.runs++
 	v := o.version[p]
-	r := originResp{Status: 200, Body: fmt.Sprintf("%d", v%10) + p[1:] + bodyPad[p], CT: "text/v" + strconv.Itoa(v), Enc: "", XV: p + "#" + strconv.Itoa(v)}
-	if v%2 == 0 {
+	r := originResp{Status: 200, Body: fmt.Sprintf("%d", v%10) + p[1:] + bodyPad[p], CT: "text/v" + strconv.Itoa(v), Enc: "", XV: p + "#" + strconv.Itoa(v), M: utils.CopyString(c.Method())}
+	// two different encodings of the same length, so that a cache that keeps a slice of the (recycled) response
+	// header buffer instead of a copy is seen to change: /a, /c ... "identity" on even versions, /b "x-ident2" on odd ones
+	if p == "/b" {
+		if v%2 == 1 {
+			r.Enc = "x-ident2"
+		}
+	} else if v%2 == 0 {
 		r.Enc = "identity"
 	}
 	if p == "/e" {
@@ -110,6 +135,15 @@ func (o *origin) handler(c fiber.Ctx) error {
 	}
 	if p == "/c" && v%2 == 0 {
 		r.Status = 404 // cacheable status other than 200
+	}
+	if p == "/z" && v%2 == 0 {
+		r.Body = "" // an empty body superseding a non-empty one (and vice versa)
+	}
+	if p == "/s" && v >= 2 {
+		r.Status = 500
+	}
+	if p == "/g" && v >= 2 {
+		r.Body += "ggggg"
 	}
 	o.log[r.XV] = r
 	if o.served == nil {
@@ -133,17 +167,54 @@ func (o *origin) handler(c fiber.Ctx) error {
 // ---- configuration ----------------------------------------------------------------
 
 type ccfg struct {
-	Storage  string // memory | injected | injected-lazy
+	Storage  string // memory | injected | injected-lazy | injected-fiberlike
 	MaxBytes uint
 	Headers  bool
-	Gen      bool // ExpirationGenerator: /b expires after 2E
+	Gen      bool   // ExpirationGenerator: /b expires after 2E
+	Methods  string `json:",omitempty"` // "" = default (GET, HEAD); otherwise comma separated Config.Methods
+	Life     string `json:",omitempty"` // "" | name of a per-key lifetime table served by the ExpirationGenerator
+}
+
+// lifeTabs: per-key lifetimes (seconds) of the ExpirationGenerator; keys not listed live E seconds.
+// "spread": different lifetimes so that the expiry heap is reordered by stores; /f lives SHORTER than the default.
+var lifeTabs = map[string]map[string]int{
+	"spread": {"/a": E, "/b": 2 * E, "/c": E, "/d": 3 * E, "/f": 1},
 }
 
 func expFor(c ccfg, path string) int {
+	if c.Life != "" {
+		if v, ok := lifeTabs[c.Life][path]; ok {
+			return v
+		}
+		return E
+	}
 	if c.Gen && path == "/b" {
 		return 2 * E
 	}
 	return E
+}
+
+// cachedMethods is the set of methods the configuration caches.
+func cachedMethods(c ccfg) map[string]bool {
+	if c.Methods == "" {
+		return map[string]bool{"GET": true, "HEAD": true}
+	}
+	m := map[string]bool{}
+	for _, x := range strings.Split(c.Methods, ",") {
+		m[x] = true
+	}
+	return m
+}
+
+func cfgTag(c ccfg) string {
+	tag := fmt.Sprintf("storage=%s maxbytes=%d headers=%v gen=%v", c.Storage, c.MaxBytes, c.Headers, c.Gen)
+	if c.Methods != "" {
+		tag += " methods=" + c.Methods
+	}
+	if c.Life != "" {
+		tag += " lifetimes=" + c.Life
+	}
+	return tag
 }
 
 func build(c ccfg, o *origin, st *ttlStorage) fasthttp.RequestHandler {
@@ -151,9 +222,19 @@ func build(c ccfg, o *origin, st *ttlStorage) fasthttp.RequestHandler {
 		CacheInvalidator: func(c fiber.Ctx) bool { return c.Get("X-Invalidate") != "" }}
 	if strings.HasPrefix(c.Storage, "injected") {
 		st.lazy = c.Storage == "injected-lazy"
+		st.keep = c.Storage != "injected"
+		st.dropEmpty = c.Storage == "injected-fiberlike"
 		cfg.Storage = st
 	}
-	if c.Gen {
+	if c.Methods != "" {
+		cfg.Methods = strings.Split(c.Methods, ",")
+	}
+	if c.Life != "" {
+		cc := c
+		cfg.ExpirationGenerator = func(c fiber.Ctx, _ *cache.Config) time.Duration {
+			return time.Duration(expFor(cc, c.Path())) * time.Second
+		}
+	} else if c.Gen {
 		cfg.ExpirationGenerator = func(c fiber.Ctx, _ *cache.Config) time.Duration {
 			if c.Path() == "/b" {
 				return 2 * E * time.Second
@@ -230,10 +311,12 @@ func main() {
 			"history_depth":       depth,
 			"history_alphabet":    opNames(),
 			"history_configs":     len(allCfgs()),
+			"history_families":    familySummary(r),
+			"unspecified_skipped": r.P.Counters["unspecified_skipped"],
 			"histories":           r.P.Counters["histories"],
 			"history_transitions": r.P.Counters["transitions"],
 			"hits_judged":         r.P.Counters["hits"],
-			"rule":                "Harness A: every sequence of exactly `history_depth` operations over the alphabet (GET of 3 keys with body sizes 2/3/4 whose origin returns a unique self-describing version each time, GET no-cache, GET no-store, POST, a key whose origin answers 500, GET with the invalidator header, clock ticks 1 s / E / E+1) x 24 configurations {memory, injected TTL storage, injected storage that ignores TTLs} x MaxBytes {0,6} x StoreResponseHeaders x ExpirationGenerator; each history runs on a fresh app inside the scheduler (so the middleware's clock goroutine is a managed thread and the virtual clock is owned); after every step: a response not produced by the origin (a hit) must equal — status, body, content type, encoding, stored header — the origin response the reference model holds for that key, which must be unexpired, not invalidated, and the request must not be no-cache/no-store; non-cacheable statuses are never served from cache; injected-storage body bytes <= MaxBytes. Harness B: all interleavings of the concurrent scenarios within the stated bounds followed by a sequential probe phase on the same instance.",
+			"rule":                "Harness A, family base: every sequence of exactly `history_depth` operations over the alphabet (GET of 3 keys with body sizes 2/3/4 whose origin returns a unique self-describing version each time — status 200/404, content type per version, Content-Encoding absent / identity / x-ident2 —, GET no-cache, GET no-store, POST, a key whose origin answers 500, GET with the invalidator header, clock ticks 1 s / E / E+1) x 24 configurations {memory, injected TTL storage that copies, injected storage that ignores TTLs and keeps the slices it is given} x MaxBytes {0,6} x StoreResponseHeaders x ExpirationGenerator. Further families (history_families; each: every configuration x every prefix x every word of `depth` letters, then the probe sweep): directives (Cache-Control lists with the directive after/before another one, both directives, another directive only; upper-case and second-header-line spellings run but counted unspecified), methods (GET/HEAD/POST of one path, Config.Methods default / GET,POST / POST,HEAD), shapes (origin bodies of size 0, = MaxBytes, > MaxBytes; adds an injected storage with the semantics of fiber's own in-memory storages: keeps slices, ignores empty values), heap (every ordered fill of 3 out of 5 keys of 2/3/4/2/2 bytes under MaxBytes 8 with per-key lifetimes E/2E/E/3E/1 s, then every word over the keys, 3 invalidations and 2 ticks). Each history runs on a fresh app and ONE RequestCtx inside the scheduler (so the middleware's clock goroutine is a managed thread and the virtual clock is owned); after every step: a response not produced by the origin (a hit) must equal — status, body, content type, encoding, stored header — the origin response the reference model holds for that METHOD and key, which must be unexpired, not invalidated, and the request must not be no-cache/no-store; non-cacheable statuses, unconfigured methods and bodies larger than MaxBytes are never served from cache; injected-storage body bytes <= MaxBytes; in the final sweep over all keys the body sizes of the HITS (a lower bound of the bytes held, for every storage incl. the memory store) sum to <= MaxBytes. Harness B: all interleavings of the concurrent scenarios within the stated bounds followed by a sequential probe phase on the same instance; a hit must equal one origin response of the same path AND method.",
 		})
 		cov["transitions"] = r.P.Counters["points"] + r.P.Counters["transitions"]
 		cov["traces_validated_against_impl"] = r.P.Counters["executions"] + r.P.Counters["histories"]
@@ -241,9 +324,23 @@ func main() {
 			Assumptions: []string{"virtual clock: time.Now in cache.go through the vtime shim, utils.Timestamp through the overlay clock, both set from the scheduler's clock", "the middleware's 300 ms clock goroutine runs as a managed thread and is given the chance to run after every tick before the next request (freshness is judged against the middleware's own coarse clock)",
 				"sequential consistency; scheduling points at sync/atomic/pool operations, injected storage calls and origin-handler seams", "a miss is never a violation (the statement does not promise hits)"}})
 	}
-	enumerateHistories(r, depth)
+	enumerateHistories(r, r.Quick())
 	schedx.RunAll(r, scenarios, 0)
 	r.FinishWorker()
+}
+
+// familySummary lists, per family of harness A, its alphabet, bounds and the number of histories run.
+func familySummary(r *core.Run) []map[string]any {
+	var out []map[string]any
+	for _, f := range families(r.Quick()) {
+		pre := len(f.Prefixes)
+		if pre == 0 {
+			pre = 1
+		}
+		out = append(out, map[string]any{"family": f.Name, "alphabet": namesOf(f.Alphabet), "depth": f.Depth, "prefixes": pre, "configs": len(f.Cfgs),
+			"sweep": namesOf(f.Sweep), "histories": r.P.Counters["histories:"+f.Name]})
+	}
+	return out
 }
 
 func sortedKeys[V any](m map[string]V) []string {
